@@ -19,7 +19,7 @@ import time
 import framework as fw
 from framework import REPO, ROOT, BUILD
 
-HARNESS = ["e2/e2_core_test.go", "e2/e2_exec_test.go", "e2/e2_hook_test.go", "e2/e2_conc_test.go", "e2/e2_sched_test.go", "e2/e2_live_test.go"]
+HARNESS = ["e2/e2_core_test.go", "e2/e2_exec_test.go", "e2/e2_hook_test.go", "e2/e2_conc_test.go", "e2/e2_sched_test.go", "e2/e2_live_test.go", "e2/e2_pump_test.go"]
 PROPS_ALL = ["C01", "C02", "C03", "C13"]
 
 # which property an oracle failure key belongs to (a key may belong to several)
@@ -40,6 +40,7 @@ ORACLE_OWNER = {
     "conc-ledger": ["C01"], "conc-dup": ["C02"], "conc-attempts": ["C02"], "conc-rdy": ["C03"],
     "conc-conservation": ["C13"], "conc-negative": ["C13", "C03"], "conc-inv": PROPS_ALL, "race": PROPS_ALL,
     "f8": ["C13", "C03"], "bad-frame": ["C01"], "attempts-wrap-65536": ["C02"],
+    "pump-late-flush": ["C03"], "pump-newer": ["C03"], "pump-order": ["C03", "C02"], "pump-lost-frame": ["C03", "C01"],
 }
 
 
@@ -47,6 +48,8 @@ def diff_owner(op, impl, model):
     """which properties a model/implementation disagreement on this line concerns"""
     w = op.split()
     k = w[0] if w else ""
+    if k == "P":      # the pump / output-buffer leg (harness/e2/e2_pump_test.go, model Nsq.Model.Pump)
+        return ["C03"]
     if k == "deliver":
         if "guard" in model:
             return ["C03"]
@@ -107,6 +110,7 @@ def cache_key(ctx):
     mine = glob.glob(os.path.join(ROOT, "harness", "e2", "*.go")) + \
         glob.glob(os.path.join(ROOT, "harness", "common", "*")) + \
         glob.glob(os.path.join(ROOT, "lean", "Nsq", "Model", "Chan*.lean")) + \
+        [os.path.join(ROOT, "lean", "Nsq", "Model", "Pump.lean")] + \
         [os.path.join(ROOT, "lean", "DriverE2.lean"), os.path.join(ROOT, "lib", "e2.py")] + \
         glob.glob(os.path.join(ROOT, "corpus", "C*", "**", "*.ops"), recursive=True)
     # (only what package nsqd is built from: other engineers' fixes elsewhere in the tree do not invalidate the run)
@@ -282,6 +286,18 @@ def shared_run(ctx):
         if os.path.exists(os.path.join(cdir, "e2conc.ops")):
             _, _, _, cdiffs, _ = run_driver(ctx, cdir, "e2conc")
             res["conc_diffs"] = cdiffs
+        # 4. pump / output-buffer leg (C03: flusher, forced flush, "nothing newer is sent")
+        psecs = ctx.budget(6, 40)
+        rc, out = harness_run(ctx, keep, cdir, "TestVerifE2Pump", {"VERIF_E2_SECONDS": psecs}, psecs + 120)
+        with open(os.path.join(cdir, "pump.log"), "w") as f:
+            f.write(out)
+        pf, phist, pdone = parse_log(out)
+        if pdone is None:
+            pf.append({"key": "crash", "where": "pump", "what": "pump leg did not finish (rc=%s): %s" % (rc, out[-600:])})
+        res["pump_fails"], res["pump_hist"], res["pump_done"] = pf, phist, pdone
+        if os.path.exists(os.path.join(cdir, "pump.ops")) and pdone is not None:
+            pops, _, _, pdiffs, peps = run_driver(ctx, cdir, "pump")
+            res["pump_diffs"], res["pump_lines"], res["pump_episodes"] = pdiffs, len(pops), peps
         res["wall_s"] = round(time.time() - t0, 1)
         json.dump(res, open(res_path, "w"), indent=1)
         return res
@@ -353,10 +369,14 @@ def run_property(ctx, prop, tie, props, spec="e2_chan"):
         "Go memory model / runtime: critical sections are atomic, sync/atomic and channel operations are "
         "linearizable, select picks any ready case (DESIGN 4.4)",
         "correspondence harness harness/e2/*.go (generators, white-box dumps, canonicalisation, diff) — trusted not to hide differences",
-        "translator tools/go2lean (kinds stmts/errsites/calls/callers/mapwrites) renders the facts of nsqd/{channel,client_v2,protocol_v2}.go",
+        "translator tools/go2lean (kinds stmts/errsites/calls/callers/mapwrites) renders the facts of nsqd/{channel,client_v2,protocol_v2}.go; "
+        "kind afunc translates the clientV2 counter methods and IsReadyForMessages into Lean definitions (each sync/atomic operation read "
+        "as its sequentially consistent effect on the receiver field)",
         "go-diskqueue v1.1.0 modelled as a counted bag (Depth exact, FIFO not assumed); encoding/json, net/http (for /stats)",
     ]
     gen_ok, _ = ctx.gen(spec)
+    if "Nsq.Tie.ChanFunc" in tie:
+        ctx.gen("e2_chanfunc")     # clientV2 counters / IsReadyForMessages as translated definitions (kind afunc)
     ok, log = ctx.lean_build(tie + props)
     if not ok:
         ctx.lean_obligation_failed("lake build " + " ".join(tie + props), log[-1500:])
@@ -416,12 +436,40 @@ def run_property(ctx, prop, tie, props, spec="e2_chan"):
         ctx.violation(norm_key(f, f["key"]), f["what"],
                       "# concurrent leg, VERIF_SEED=%s: %s %s\n# re-run: ./check %s (the schedule is the Go runtime's)\n"
                       % (ctx.seed, f["key"], f["where"], prop))
+    pmine = [f for f in res.get("pump_fails", []) if prop in ORACLE_OWNER.get(f["key"], PROPS_ALL)]
+    for f in pmine[:8]:
+        ctx.violation(f["key"], f["what"],
+                      "# pump leg (harness/e2/e2_pump_test.go TestVerifE2Pump), VERIF_SEED=%s: %s %s\n"
+                      "# re-run: ./check %s ; the op/impl/model lines of the run are in .build/e2cache/%s/pump.*\n"
+                      % (ctx.seed, f["key"], f["where"], prop, res.get("key")))
+    if prop == "C03":
+        ctx.corr["pump_histogram"] = res.get("pump_hist", {})
+        ctx.corr.setdefault("streams", []).append({"label": "e2 pump/output buffer", "lines": res.get("pump_lines", 0),
+                                                   "episodes": res.get("pump_episodes", 0), "diffs": len(res.get("pump_diffs", []))})
+        try:
+            pops = open(os.path.join(res["dir"], "pump.ops")).read().splitlines()
+            pimpl = open(os.path.join(res["dir"], "pump.impl")).read().splitlines()
+            for o, i in zip(pops, pimpl):
+                ctx.count_case("pump|" + o + "|" + i, nontrivial=o.startswith("P write") or o.startswith("P recv") or "buf=0" not in i)
+        except OSError:
+            pass
+        for df in res.get("pump_diffs", []):
+            try:
+                pops = open(os.path.join(res["dir"], "pump.ops")).read().splitlines()
+                pimpl = open(os.path.join(res["dir"], "pump.impl")).read().splitlines()
+                pmodel = open(os.path.join(res["dir"], "pump.model")).read().splitlines()
+                txt = "\n".join("%s\t-> impl: %s\t| model: %s" % (pops[j], pimpl[j], pmodel[j] if j < len(pmodel) else "?")
+                                for j in range(df["ep_start"], min(df["line"] + 1, len(pops)))) + "\n"
+                ctx.write_replay("pump_line%d.txt" % df["line"], txt)
+            except (OSError, IndexError):
+                pass
     # correspondence diffs
-    for df in res.get("diffs", []) + res.get("conc_diffs", []):
+    for df in res.get("diffs", []) + res.get("conc_diffs", []) + res.get("pump_diffs", []):
         if prop in df["owners"]:
             ctx.log("model/impl disagree on `%s`: impl=%s model=%s" % (df["op"], df["impl"], df["model"]))
             broken.append("correspondence `%s`: impl=%s model=%s" % (df["op"][:80], df["impl"][:120], df["model"][:120]))
-            ctx.write_replay("corr_line%d.txt" % df["line"], episode_text(res, df))
+            if not df["op"].startswith("P "):
+                ctx.write_replay("corr_line%d.txt" % df["line"], episode_text(res, df))
     ctx.corr.setdefault("streams", []).append({"label": "e2 serial", "lines": res.get("lines", 0),
                                                "diffs": len(res.get("diffs", []))})
     for n in res.get("notes", []):
